@@ -117,6 +117,11 @@ func (m *ModSet) covers(key string) bool {
 
 // isPrivateComp: field component of an unexported field of a type declared in the module.
 func isPrivateComp(key string) bool {
+	// assumption A-SCALAR-CELLS: a *bool, *float64 or *string cell handed out by the evaluator (AsType, BinaryExpr) is
+	// not written by code outside the module: the engine dereferences such pointers before values reach user functions
+	if key == "C|Bool" || key == "C|F64" || key == "C|Str" {
+		return true
+	}
 	if !strings.HasPrefix(key, "F|") {
 		return false
 	}
@@ -125,6 +130,10 @@ func isPrivateComp(key string) bool {
 		return false
 	}
 	pk := parts[1]
+	if strings.HasPrefix(pk, "sqlparser.") {
+		// assumption A-AST: code outside the module (user functions, library code) does not modify the nodes of a parsed query
+		return true
+	}
 	if !(strings.HasPrefix(pk, "genql.") || strings.HasPrefix(pk, "compare.") || strings.HasPrefix(pk, "sanitizer.")) {
 		return false
 	}
